@@ -14,6 +14,7 @@ var noopFuncs = map[string]string{
 	"(*sync.RWMutex).RLock": "lock", "(*sync.RWMutex).RUnlock": "lock", "(*sync.Mutex).TryLock": "",
 	"(*sync.WaitGroup).Add": "wg", "(*sync.WaitGroup).Done": "wg",
 	"runtime.KeepAlive": "rt", "runtime.Gosched": "rt",
+	"(*sync.Pool).Put": "pool",
 }
 
 func isNoopCallee(name string) (string, bool) {
@@ -44,6 +45,12 @@ func (c *FnCtx) calleeName(cc *ssa.CallCommon) (string, *ssa.Function) {
 					return "field " + shortTypeFull(pt.Elem()) + "." + st.Field(fa.Field).Name(), nil
 				}
 			}
+		}
+	}
+	// call through a function-typed PARAMETER: named "param <func>.<param>"; `self` in its contract is the function value
+	if pv, ok := cc.Value.(*ssa.Parameter); ok && !cc.IsInvoke() {
+		if _, isSig := pv.Type().Underlying().(*types.Signature); isSig {
+			return "param " + c.fn.String() + "." + pv.Name(), nil
 		}
 	}
 	if fn := cc.StaticCallee(); fn != nil {
@@ -232,6 +239,13 @@ func (c *FnCtx) applyContract(fc *FuncContract, fn *ssa.Function, cc *ssa.CallCo
 	}
 	pre := c.heap.clone()
 	env := &Env{c: c, names: map[string]Val{}, heap: pre, pkg: cpkg, what: "contract of " + shortName(fc.Name) + " at call"}
+	if !cc.IsInvoke() {
+		if _, isFn := cc.Value.(*ssa.Function); !isFn {
+			if _, isB := cc.Value.(*ssa.Builtin); !isB {
+				env.names["self"] = c.val(cc.Value)
+			}
+		}
+	}
 	for i, n := range pnames {
 		v := args[i]
 		env.names[n] = v
@@ -331,6 +345,21 @@ func (c *FnCtx) havocClause(env *Env, m Clause) {
 			case "heap": // heap(T.f): the whole field heap
 				c.havocNamed(typeArgText(x.Args[0]), env)
 				return
+			case "allelems": // allelems(T): the elements of every slice of element type T
+				t := env.typeOf(typeArgText(x.Args[0]))
+				if isStruct(t) {
+					st := t.Underlying().(*types.Struct)
+					for i := 0; i < st.NumFields(); i++ {
+						if !isArray(st.Field(i).Type()) {
+							c.frameCalleeWhole(c.fieldHeap(t, i))
+							c.havocHeap(c.fieldHeap(t, i))
+						}
+					}
+				} else {
+					c.frameCalleeWhole(c.elemsHeap(t))
+					c.havocHeap(c.elemsHeap(t))
+				}
+				return
 			case "pkgheap": // pkgheap("internal/cache"): every heap array of types declared in that package
 				st, ok := x.Args[0].(*EStr)
 				if !ok {
@@ -362,6 +391,21 @@ func (c *FnCtx) havocClause(env *Env, m Clause) {
 		c.frameCheckLoc(l, "callee frame")
 	}
 	c.havocLoc(l)
+}
+
+// frameCalleeWhole: a callee that may rewrite a whole heap array needs the caller's frame to cover it wholesale.
+func (c *FnCtx) frameCalleeWhole(name string) {
+	if c.fc == nil || c.discover || !c.fc.HasMod || c.fc.ModAll || c.abstract {
+		return
+	}
+	env := c.preEnv()
+	ok := "false"
+	for _, m := range c.fc.Modifies {
+		if c.frameCoversWhole(env, m, location{arr: name, a1: "0", a2: "0"}) {
+			ok = "true"
+		}
+	}
+	c.check(fmt.Sprintf("frame:callee:%d", c.ordinal("framecallee")), "callee may rewrite "+name+", which must be within this function's modifies clause", ok)
 }
 
 // frameCalleePkg: a callee that modifies pkgheap(p) needs the caller's frame to include it.
@@ -488,6 +532,7 @@ func (c *FnCtx) havocNamed(tf string, env *Env) {
 	}
 	for k := 0; k < st.NumFields(); k++ {
 		if st.Field(k).Name() == tf[i+1:] {
+			c.frameCalleeWhole(c.fieldHeap(t, k))
 			c.havocHeap(c.fieldHeap(t, k))
 			return
 		}
